@@ -65,6 +65,38 @@ class SlotInterp(Interp):
         return 'unk', 'index-shape'
 
 
+def norm_index(i):
+    """canonical form of a slot index: ((x % c) + k) % c  ==  (x + k) % c   (unsigned arithmetic, as in the table code)"""
+    if isinstance(i, Term) and i.op == '%' and len(i.args) == 2:
+        x, c = i.args
+        lx = Lin.of(x) if (is_opaque(x) or isinstance(x, int)) else None
+        if isinstance(lx, Lin):
+            acc = Lin(lx.c)
+            for k, (coef, leaf) in lx.terms.items():
+                inner = norm_index(leaf) if isinstance(leaf, Term) else leaf
+                if coef == 1 and isinstance(inner, Term) and inner.op == '%' and vkey(inner.args[1]) == vkey(c) and Lin.of(inner.args[0]) is not None:
+                    add = Lin.of(inner.args[0])
+                else:
+                    add = Lin(0, {k: (coef, leaf)})
+                acc = acc.add(add) if isinstance(acc, Lin) else Lin.of(acc).add(add)
+                if not isinstance(acc, Lin):
+                    acc = Lin.of(acc)
+            x = acc.simp()
+        return Term('%', x, c)
+    return i
+
+
+def probe_sequence(ctx):
+    """normalised indices of the slots a path has addressed, in order of first access"""
+    seq = []
+    for e in ctx.events:
+        if e[0] == 'slot':
+            k = repr(norm_index(e[2]))
+            if k not in seq:
+                seq.append(k)
+    return tuple(seq)
+
+
 def slot_obligations(rep, rule, unit, fn, paths, where):
     """one obligation per function (plus one per distinct way of being wrong)"""
     seen = 0
@@ -275,6 +307,29 @@ def m_strcmp(it, ctx, n, args):
 
 def m_strncmp(it, ctx, n, args):
     return _compare(it, ctx, n, args[0], args[1], args[2])
+
+
+def m_strlen(it, ctx, n, args):
+    a = args[0]
+    if isinstance(a, str):
+        return len(a)
+    sp = split_ptr(a)
+    if sp is None:
+        r = it.lazy_value(n.dtype or n.type, ctx.fresh('strlen'))
+        ctx.emit('call', 'strlen', [a], n.line, r)
+        return r
+    sym, off = sp
+    cnt = 0
+    while cnt < 64:
+        c = char_known(ctx, sym, off + cnt)
+        if c == 0:
+            return cnt
+        if c is None and not char_excluded(ctx, sym, off + cnt, 0):
+            break
+        cnt += 1
+    r = Sym(ctx.fresh('strlen(%s%s)' % (sym.name, '+%d' % off if off else '')), 'size_t')
+    ctx.bounds[r.key()] = [cnt, 1 << 62]
+    return r
 
 
 def describe(ctx, sym, upto=8):
